@@ -23,6 +23,7 @@ LEVEL_TEXT = ("Exploration of operation histories against a list model: limit/he
               "last_one, the four views and partial next() are applied in generated orders; after every step and at the end each "
               "live query must yield exactly its model; negative counts must raise ValueError and change nothing. All chains of "
               "length <= 3 over 7 chain operations x 7 counts x lengths 0-5 are enumerated exhaustively.")
+LEVEL_TEXT += ' After last_one() the query must yield nothing more.'
 BUDGET_S = {"quick": 60, "thorough": 400}
 RULE = ("Histories over match sequences of length 0-30 (exhaustive for length <= 5, chains <= 3). Non-trivial = a chain with >= 2 "
         "operations at least one of which has 0 < n < remaining; distinct by (L, chain).")
